@@ -34,8 +34,8 @@ pub enum Node {
 
 // ---------------------------------------------------------------- s-expression reader
 pub struct Rd<'a> {
-    t: Vec<&'a str>,
-    i: usize,
+    pub t: Vec<&'a str>,
+    pub i: usize,
 }
 
 fn tokens(s: &str) -> Vec<&str> {
